@@ -379,7 +379,7 @@ def run(ctx):
               'KMIPProtocol no longer forces INFO when its logger level is unset: its DEBUG message dumps become visible under a DEBUG root logger')
     for mname in ('read', 'write'):
         mfn = get_method(kc, mname)
-        dumps = [c for c in walk_local(mfn) if is_logger_call(c)]
+        dumps = [c for c in walk_local(mfn) if is_logger_call(c) in ('debug', 'info', 'warning', 'warn', 'error', 'exception', 'critical', 'fatal', 'log')]
         ctx.check(all(is_logger_call(c) == 'debug' for c in dumps), 'C20.R3', 'KMIPProtocol.%s|dumps-at-debug' % mname, '%s:%s' % (PROTO, mfn.lineno),
                   'message dumps at DEBUG', 'a message dump in KMIPProtocol.%s is logged above DEBUG' % mname)
     ct = src.tree(CONFIG)
